@@ -48,8 +48,9 @@ func NewFileCache[MetadataT any](cfg *config.Config, rootDir string, maxCacheSiz
 		maxCacheSize:    atomics.NewInt64(maxCacheSize),
 	}
 
-	c.subs.Add(cfg.Cache.MaxCacheSize.OnChange(func(newSize bytesize.ByteSize) {
-		c.maxCacheSize.Set(newSize.Bytes())
+	// Notifications may arrive out of order: apply the value that is current when the listener runs.
+	c.subs.Add(cfg.Cache.MaxCacheSize.OnChange(func(bytesize.ByteSize) {
+		c.maxCacheSize.Set(cfg.Cache.MaxCacheSize.Read().Bytes())
 	}))
 
 	c.janitor = newCacheJanitor(cfg, cleanupInterval, cacheFunctions[MetadataT]{
